@@ -165,6 +165,27 @@ Example c09_example_missing_return_rejected :
 Proof. right. vm_compute. tauto. Qed.
 
 (* ---- 8. the type registry (internal/registry GetOrCreate), over all request histories ---- *)
+(* clause 8: the result bindings of every entry point are pairwise distinct, and @blend_src occurs only as the complete
+   dual-source pair (two location outputs, both at location 0, blend_src 0 and 1) *)
+Require Import Naga.IR.EntryProofs.
+
+Theorem entry_results_sound : forall m, wf_module m = [] ->
+  forall i ep, nth_error (m_entry_points m) i = Some ep ->
+  exists l, result_bindings m ep = Some l /\
+    (forall p q a b, nth_error l p = Some a -> nth_error l q = Some b -> (p < q)%nat -> binding_key_eqb a b = false) /\
+    ((forall pr, In pr (loc_pairs l) -> snd pr = None) \/
+     (exists a b, loc_pairs l = [(0, Some a); (0, Some b)]%Z /\ ((a = 0 /\ b = 1) \/ (a = 1 /\ b = 0))%Z)).
+Proof. exact entry_results_sound_thm. Qed.
+Print Assumptions entry_results_sound.
+
+Example c09_example_dual_source_pair_accepted :
+  blend_src_complete [BBuiltin "BuiltinFragDepth" false; BLocation 0 None (Some 1%Z); BLocation 0 None (Some 0%Z)] = true.
+Proof. vm_compute. reflexivity. Qed.
+
+Example c09_example_half_dual_source_rejected :
+  blend_src_complete [BLocation 0 None None; BLocation 0 None (Some 0%Z)] = false.
+Proof. vm_compute. reflexivity. Qed.
+
 Require Import Naga.Registry.RegistryModel Naga.Registry.RegistryProofs.
 
 (* the key determines name and type, up to struct member bindings (ValuePointer types, whose key ignores
